@@ -5,6 +5,7 @@ package drv
 
 import (
 	"encoding/json"
+	"errors"
 	"fmt"
 	"math/rand"
 	"os"
@@ -822,6 +823,13 @@ func keys(m map[string]bool) []string {
 
 func (q *seqRun) settle(waitDelay []string) (core.View, bool) {
 	v, err := q.sys.Quiesce(core.QuiesceOpts{Watchdog: q.o.Watchdog, WaitDelayHandlers: waitDelay})
+	if errors.Is(err, core.ErrCancelNotDelivered) {
+		q.find([]string{"C04"}, "C04:acknowledged-cancel-never-delivered", "step %d: %v (the cancel call had returned; other cancels were in flight)", q.step, err)
+		q.journal("CANCEL NEVER DELIVERED: %v", err)
+		q.dead = true
+		q.view = v
+		return v, false
+	}
 	if err != nil {
 		q.res.Inconclusive = fmt.Sprintf("step %d: %v", q.step, err)
 		q.journal("WATCHDOG: %v", err)
